@@ -198,6 +198,9 @@ func c04CheckWrite(r *core.Run, b *atlas.Built, w string) *core.Fail {
 				if sh := tensor.Shape(b.View.Shape); (sh.IsVector() || len(sh) == 1) && b.T.IsView() {
 					tag = "[KF:strided-vector-view]"
 				}
+				if b.T.DataOrder().IsColMajor() || strings.HasPrefix(b.Layout, "F") {
+					tag = "[KF:colmajor-data-movement]"
+				}
 				return core.F("wrong-value"+tag, "tr", "after physical transpose of the view: expected %s got %s", ref.FmtEls(want), ref.FmtEls(got))
 			}
 		}
